@@ -234,6 +234,7 @@ struct item {
         uint32_t h_len_bits; /* bit-length MACs */
         uint32_t pon_pli;    /* PON: payload length indicator put into the XGEM header */
         int pon_crc_defined; /* PON: PLI > 4, CRC half of the tag is specified */
+        int tag_unspec;      /* the tag buffer content is not specified for this geometry (DOCSIS with CRC switched off) */
         uint32_t iv_len, aiv_len, aad_len, tag_len;
         int inplace;
         enum place pl;
